@@ -129,6 +129,13 @@ func main() {
 				c.Report("unpositioned ["+m.Kind+"] "+src, fmt.Sprintf("defect %s: rejected, but %s:\n%s\nerrors:\n%s", m.Kind, why, src, err), rep)
 				continue
 			}
+			// the same program saved with CR LF line ends: still rejected, still positioned inside the source
+			crlf := strings.ReplaceAll(src, "\n", "\r\n")
+			if obj2, err2 := mt.Compile(ld.name, crlf, mt.Opts{}); err2 == nil || obj2 != nil {
+				c.Report("accepted-crlf ["+m.Kind+"] "+src, fmt.Sprintf("defect %s: rejected with LF line ends but accepted with CR LF line ends:\n%s", m.Kind, src), rep)
+			} else if ok, why := positioned(err2.Error(), ld.name, crlf); !ok {
+				c.Report("unpositioned-crlf ["+m.Kind+"] "+src, fmt.Sprintf("defect %s, program saved with CR LF line ends: rejected, but %s:\n%s\nerrors:\n%s", m.Kind, why, src, err2), rep)
+			}
 			// the loader must refuse it too
 			before := mapVal(mrt.ProgLoadErrors, ld.name)
 			lerr := ld.rt.CompileAndRun(ld.name, strings.NewReader(src))
@@ -147,5 +154,5 @@ func main() {
 	c.Set("base_programs", len(bases))
 	c.Set("mutants_per_defect_kind", kinds)
 	c.Assume = []string{"base programs are the accepted programs of the C01 families (quick: every k-th of each family, a slice fixed by construction; thorough: all)", "a position lies inside the source when its file name is the program's, 1 <= line <= number of lines and 1 <= column <= line length + 1"}
-	c.Finish("every single-site mutant of the base programs for the defect kinds {undeclared metric, capture index too high, unknown capture name, capture used in a sibling block, undefined decorator, next outside a decorator, one index key too many / too few, redeclared name, unused declaration, invalid regular expression, regular expression over the length limit, integer division / modulus by the literal 0}: Compile returns errors and no code, at least one error position lies inside the source, and Runtime.CompileAndRun refuses the program (error returned, no VM, prog_load_errors_total +1); distinct_nontrivial = distinct mutants")
+	c.Finish("every single-site mutant of the base programs for the defect kinds {undeclared metric, capture index too high, unknown capture name, capture used in a sibling block, undefined decorator, next outside a decorator, one index key too many / too few, redeclared name, unused declaration, invalid regular expression, regular expression over the length limit, integer division / modulus by the literal 0}: Compile returns errors and no code, at least one error position lies inside the source (also when the program is saved with CR LF line ends), and Runtime.CompileAndRun refuses the program (error returned, no VM, prog_load_errors_total +1); distinct_nontrivial = distinct mutants")
 }
